@@ -1,6 +1,8 @@
 package codec
 
 import (
+	"google.golang.org/protobuf/reflect/protoreflect"
+	"regexp"
 	"fmt"
 	"sort"
 	"strings"
@@ -47,6 +49,8 @@ func expectedOrder(m *model.Msg) []expItem {
 	}
 	return out
 }
+
+var boolConstRe = regexp.MustCompile(`tag\(([0-9a-f]+)\) bool\([^()]*\)`)
 
 // RunEnc decides ENC.* and DET.* on every generated message type.
 func RunEnc(c *core.Ctx) {
@@ -125,6 +129,12 @@ func RunEnc(c *core.Ctx) {
 						got, p = blk.Str, posOf(m, c, blk.Pos)
 						if blk.Kind == "oneof" {
 							got = "oneof " + blk.On
+						}
+					}
+					// a singular bool is written only under `if x.F`: inside that guard the value byte is the constant 1
+					if f.Desc.Kind() == protoreflect.BoolKind && !f.Desc.IsList() && f.Oneof == nil && strings.HasPrefix(want, "if(true(") {
+						if alt := boolConstRe.ReplaceAllString(want, "tag(${1}01)"); got == alt {
+							got = want
 						}
 					}
 					if got == want {
